@@ -1,5 +1,6 @@
 import NetVerif.Model.StreamLimits
 import NetVerif.Gen.C21
+import NetVerif.Model.StreamWire
 /-!
 C21 — QUIC stream-count limits are never exceeded.
 
@@ -440,6 +441,155 @@ theorem sent_limit_holds_partial (cfg : Int) (ops : List ROp) (n : Int)
     · intro h
       apply Classical.byContradiction; intro hn
       exact hex ⟨hu, h, by omega⟩
+
+/-! ## the wire monitor (V-tie): every accepted trace satisfies the clauses of C21 -/
+
+section Wire
+open NetVerif.Model.StreamWire
+
+abbrev WEv := NetVerif.Model.StreamWire.Ev
+
+/-- MAX_STREAMS values the Conn sent, in order. -/
+def maxVals (tr : List WEv) : List Int := tr.filterMap fun | .maxStreams v => some v | _ => none
+/-- MAX_STREAMS values the peer sent, in order. -/
+def grantVals (tr : List WEv) : List Int := tr.filterMap fun | .peerMax v => some v | _ => none
+/-- The limit the peer was last told: the last MAX_STREAMS sent, else the transport parameter. -/
+def advAt (a0 : Int) (pre : List WEv) : Int := (maxVals pre).getLast?.getD a0
+/-- The largest limit the peer ever granted (stale/reordered MAX_STREAMS are ignored). -/
+def grantAt (g0 : Int) (pre : List WEv) : Int := (grantVals pre).foldl max g0
+def lcountAt (pre : List WEv) : Int := (pre.filter fun | .localOpen (some _) => true | _ => false).length
+def ccountAt (pre : List WEv) : Int := (pre.filter fun | .closed => true | _ => false).length
+
+/-- The clauses of C21 for one observed event after the prefix `pre` (one stream type). -/
+def GoodAt (st0 : St) (pre : List WEv) : WEv → Prop
+  | .peerOpen n err => (err = true ↔ n ≥ advAt st0.adv pre)   -- STREAM_LIMIT_ERROR iff beyond the advertised limit
+  | .accepted n => n < advAt st0.adv pre
+  | .maxStreams v => advAt st0.adv pre ≤ v ∧                   -- never decreases
+      v - (st0.ccount + ccountAt pre) ≤ st0.cfg                -- peer never holds more than configured
+  | .localOpen (some n) => n = st0.lcount + lcountAt pre ∧ n < grantAt st0.grant pre
+  | .localOpen none => st0.lcount + lcountAt pre ≥ grantAt st0.grant pre   -- blocks only without quota
+  | _ => True
+
+private theorem getLast_cons_getD (v a0 : Int) (l : List Int) : (v :: l).getLast?.getD a0 = l.getLast?.getD v := by
+  cases l with
+  | nil => rfl
+  | cons x xs =>
+    rw [List.getLast?_cons_cons]
+    cases h : (x :: xs).getLast? with
+    | none => simp at h
+    | some y => rfl
+
+private theorem wafter_spec (pre : List WEv) : ∀ (st : St),
+    (after st pre).adv = advAt st.adv pre ∧ (after st pre).grant = grantAt st.grant pre ∧
+    (after st pre).lcount = st.lcount + lcountAt pre ∧ (after st pre).ccount = st.ccount + ccountAt pre ∧
+    (after st pre).cfg = st.cfg := by
+  induction pre with
+  | nil => intro st; simp [after, advAt, grantAt, lcountAt, ccountAt, maxVals, grantVals]
+  | cons e rest ih =>
+    intro st
+    obtain ⟨a, b, c, d, f⟩ := ih (next st e)
+    simp only [after, List.foldl_cons] at a b c d f ⊢
+    rw [a, b, c, d, f]
+    cases e with
+    | peerOpen n err => simp [next, advAt, grantAt, lcountAt, ccountAt, maxVals, grantVals]
+    | accepted n => simp [next, advAt, grantAt, lcountAt, ccountAt, maxVals, grantVals]
+    | maxStreams v =>
+      refine ⟨?_, ?_, ?_, ?_, ?_⟩ <;>
+        simp [next, advAt, grantAt, lcountAt, ccountAt, maxVals, grantVals, getLast_cons_getD]
+    | localOpen res =>
+      cases res with
+      | none => simp [next, advAt, grantAt, lcountAt, ccountAt, maxVals, grantVals]
+      | some n =>
+        refine ⟨?_, ?_, ?_, ?_, ?_⟩ <;>
+          simp [next, advAt, grantAt, lcountAt, ccountAt, maxVals, grantVals] <;> omega
+    | peerMax v =>
+      refine ⟨?_, ?_, ?_, ?_, ?_⟩ <;>
+        simp [next, advAt, grantAt, lcountAt, ccountAt, maxVals, grantVals]
+    | closed =>
+      refine ⟨?_, ?_, ?_, ?_, ?_⟩ <;>
+        simp [next, advAt, grantAt, lcountAt, ccountAt, maxVals, grantVals] <;> omega
+
+private theorem wrun_check (st : St) (pre : List WEv) (e : WEv) (post : List WEv)
+    (h : Model.StreamWire.run st (pre ++ e :: post) = true) : check (after st pre) e = true := by
+  induction pre generalizing st with
+  | nil => simp only [List.nil_append, Model.StreamWire.run, Bool.and_eq_true] at h; exact h.1
+  | cons x rest ih =>
+    simp only [List.cons_append, Model.StreamWire.run, Bool.and_eq_true] at h
+    exact ih (next st x) h.2
+
+/-- **Soundness of the wire monitor**: on every trace the monitor accepts, each observed event
+satisfies its clause of C21 with respect to the limits in force at that point of the trace. -/
+theorem wire_monitor_sound (st0 : St) (tr : List WEv) (h : Model.StreamWire.run st0 tr = true) :
+    ∀ pre e post, tr = pre ++ e :: post → GoodAt st0 pre e := by
+  intro pre e post htr
+  subst htr
+  have hc := wrun_check st0 pre e post h
+  obtain ⟨a, b, c, d, f⟩ := wafter_spec pre st0
+  cases e with
+  | peerOpen n err =>
+    simp only [check, a] at hc
+    simp only [GoodAt]
+    have := eq_of_beq hc
+    rw [this]; simp
+  | accepted n => simp only [check, a, decide_eq_true_eq] at hc; exact hc
+  | maxStreams v =>
+    simp only [check, a, d, f, Bool.and_eq_true, decide_eq_true_eq] at hc
+    exact ⟨hc.1, by omega⟩
+  | localOpen res =>
+    cases res with
+    | none => simp only [check, b, c, decide_eq_true_eq] at hc; exact hc
+    | some n => simp only [check, b, c, Bool.and_eq_true, decide_eq_true_eq] at hc; exact hc
+  | peerMax v => trivial
+  | closed => trivial
+
+/-- `grantAt` is the maximum of the initial grant and every MAX_STREAMS the peer sent. -/
+theorem grantAt_spec (g0 : Int) (pre : List WEv) :
+    g0 ≤ grantAt g0 pre ∧ (∀ v ∈ grantVals pre, v ≤ grantAt g0 pre) ∧
+    (grantAt g0 pre = g0 ∨ grantAt g0 pre ∈ grantVals pre) := by
+  unfold grantAt
+  generalize grantVals pre = l
+  induction l generalizing g0 with
+  | nil => simp
+  | cons x xs ih =>
+    obtain ⟨a, b, c⟩ := ih (max g0 x)
+    simp only [List.foldl_cons, List.mem_cons]
+    refine ⟨by omega, ?_, ?_⟩
+    · rintro v (rfl | hv)
+      · omega
+      · exact b v hv
+    · rcases c with c | c
+      · by_cases hx : g0 ≤ x
+        · right; left; rw [c]; omega
+        · left; rw [c]; omega
+      · exact Or.inr (Or.inr c)
+
+/-- On an accepted trace the MAX_STREAMS values on the wire never decrease and are never below
+the transport parameter. -/
+theorem wire_maxStreams_monotone (tr : List WEv) : ∀ (st0 : St), Model.StreamWire.run st0 tr = true →
+    (maxVals tr).Pairwise (· ≤ ·) ∧ ∀ v ∈ maxVals tr, st0.adv ≤ v := by
+  induction tr with
+  | nil => intro st0 _; simp [maxVals]
+  | cons e rest ih =>
+    intro st0 h
+    simp only [Model.StreamWire.run, Bool.and_eq_true] at h
+    obtain ⟨h1, h2⟩ := h
+    obtain ⟨i1, i2⟩ := ih (next st0 e) h2
+    cases e with
+    | maxStreams v =>
+      simp only [check, Bool.and_eq_true, decide_eq_true_eq] at h1
+      simp only [maxVals, List.filterMap_cons] at i1 i2 ⊢
+      refine ⟨List.pairwise_cons.2 ⟨fun w hw => by simpa [next] using i2 w hw, i1⟩, ?_⟩
+      intro w hw
+      rcases List.mem_cons.1 hw with rfl | hw
+      · exact h1.1
+      · have := i2 w hw; simp only [next] at this; omega
+    | peerOpen n err => simpa [maxVals, next] using And.intro i1 i2
+    | accepted n => simpa [maxVals, next] using And.intro i1 i2
+    | localOpen res => cases res <;> simpa [maxVals, next] using And.intro i1 i2
+    | peerMax v => simpa [maxVals, next] using And.intro i1 i2
+    | closed => simpa [maxVals, next] using And.intro i1 i2
+
+end Wire
 
 /-! ## T-tie: the regenerated Go code equals the model -/
 
